@@ -28,6 +28,7 @@ class C18(Prop):
             "subscription ids of 64, 65 and 65 bytes with a common 64-byte prefix; the kind of the event behind an id is fixed per case: 1, or one of 0, 1, 3, 5, "
             "9999, 10000, 19999, 20000, 20001, 29999, 30000, 39999, 40000 (every NIP-01 class and both sides of its "
             "boundaries); non-trivial = at least one message answered or dropped and one passed; "
+            "the messages a client received are kept as handed over and must still read the same at the end of the history; "
             "distinct = distinct inputs")
     trusted_base = COMMON_TRUSTED + [
         "the harness's sentinel protocol (a reserved CLOSE that every middleware forwards, answered by a reserved NOTICE) "
